@@ -241,7 +241,7 @@ Definition spec_read (i : input) : res (list (str * list cell)) :=
       bind (filterM (spec_filters_row names (ci_syn ci) nullstr (i_mdt i) (negb (is_nil ign)) fs) rows) (fun rows' =>
       bind (mapM (fun r => spec_convert_row nullstr (i_mdt i) names drops (spec_shape (length names) r)) rows')
            (fun crows =>
-      postprocess (id_label knames) (has_date knames) nullstr (i_mdt i)
+      postprocess (id_label knames) (has_date names) nullstr (i_mdt i)
                   (columns_of knames (map (fun _ => false) knames) crows)))
   end end))).
 
@@ -325,8 +325,8 @@ Definition g_id_choice (names : list str) (drops : list bool) : bool :=
               | None => true
               end
   end.
-(* [class] no DATE/DAT1/DAT2/DAT3 column (TIME/DATE translation is not covered) *)
-Definition g_no_date (names : list str) : bool := negb (has_date names).
+(* (round 4) the former class conjunct g_no_date is gone: DATE/DAT1/DAT2/DAT3 columns stay text and, dropped or not, keep
+   TIME as text (docs/NONMEM.rst: "Even if DATE is DROP it will still affect TIME") — spec_read says so with has_date names *)
 (* [class] column names (dropped ones included) are unique *)
 Definition g_names_unique (names : list str) : bool := nodup_s names.
 
@@ -340,7 +340,7 @@ Definition g_filters_valid (names : list str) (syn : list (str * str)) (i : inpu
 
 Definition item_charset_ok (x : str) : bool := g_charset x.
 
-(* the conjuncts, in the order of the guard tags 201..209 of Check.verdict.  Since the fix commits 8a96a4a,
+(* the conjuncts, in the order of the guard tags 201..208 of Check.verdict.  Since the fix commits 8a96a4a,
    f9c38b4, 0a78c77, 6a54a3e, c9e4304 the conjuncts g_ignchar, g_last_comment, g_blank, g_first_width,
    g_filter_cols, the signed-D and anchoring item conjuncts (and with the None padding also g_time_col) are gone *)
 Definition guard_conjuncts (i : input) : list bool :=
@@ -352,7 +352,7 @@ Definition guard_conjuncts (i : input) : list bool :=
       let syn := ci_syn ci in
       [ g_alphabet i; g_edge_tab i; g_rows_within names i;
         g_items item_charset_ok names drops syn i;
-        g_id_drop names drops i; g_id_choice names drops; g_no_date names; g_names_unique names;
+        g_id_drop names drops i; g_id_choice names drops; g_names_unique names;
         g_filters_valid names syn i ]
   end.
 Definition guard (i : input) : bool := forallb (fun b => b) (guard_conjuncts i).
